@@ -134,6 +134,16 @@ func (s *MemStore) Clone() *MemStore {
 	return &MemStore{Items: n}
 }
 
+// DeepClone copies keys and values byte by byte: what a node sees after reloading the store from
+// its database (no memory shared with the running process).
+func (s *MemStore) DeepClone() *MemStore {
+	n := make([]kvPair, len(s.Items))
+	for i := range s.Items {
+		n[i] = kvPair{K: rt.CloneBytes(s.Items[i].K), V: rt.CloneBytes(s.Items[i].V)}
+	}
+	return &MemStore{Items: n}
+}
+
 // Len is the number of live entries.
 func (s *MemStore) Len() int { return len(s.Items) }
 
@@ -220,6 +230,16 @@ func (m *MultiStore) Snapshot() *MultiStore {
 	for i := range m.names {
 		n.names = append(n.names, m.names[i])
 		n.stores = append(n.stores, m.stores[i].Clone())
+	}
+	return n
+}
+
+// DeepSnapshot: every store reloaded from "disk" (see MemStore.DeepClone).
+func (m *MultiStore) DeepSnapshot() *MultiStore {
+	n := &MultiStore{}
+	for i := range m.names {
+		n.names = append(n.names, m.names[i])
+		n.stores = append(n.stores, m.stores[i].DeepClone())
 	}
 	return n
 }
